@@ -58,9 +58,16 @@ def parseSend (j : Json) : R (Send Nat) := do
 def sendJson (s : Send Nat) : Json :=
   Json.mkObj [("payload", jnats s.payload), ("dest", match s.dest with | .broadcast => Json.null | .peer a => jnat a)]
 
+/-- an optional list of numbers (absent = empty) -/
+def optNats (j : Json) (k : String) : R (List Nat) :=
+  match j.getObjVal? k with
+  | .ok v => do (← arr v).mapM (·.getNat?)
+  | .error _ => pure []
+
 def outcomeJson : Outcome Nat → Json
   | .answered sends => Json.mkObj [("answered", jarr (sends.map sendJson))]
   | .ignored => Json.str "ignored"
+  | .unanswerable => Json.str "unanswerable"
   | .died _ => Json.str "died"
 
 def parseNode (j : Json) : R Node := do
@@ -124,7 +131,8 @@ def handle (j : Json) : R Json := do
     let L := construct tables (← fldCps j "id") (← fldCps j "version") (← optCps (← fld j "desc"))
       (← (← fldArr j "ifaces").mapM parseIface)
     let evs ← (← fldArr j "events").mapM parseEvent
-    let (ann, outs) := run tables L (← fldBool j "startup") (decodeOf evs)
+    let unreachable ← optNats j "unreachable"
+    let (ann, outs) := run tables L (← fldBool j "startup") (decodeOf evs) (fun a => !unreachable.contains a)
       (evs.map (fun e => Event.datagram e.1 e.2.1))
     return Json.mkObj [("announce", jarr (ann.map sendJson)), ("outcomes", jarr (outs.map outcomeJson))]
   | "judge_run" =>
@@ -133,8 +141,10 @@ def handle (j : Json) : R Json := do
     let received ← (← fldArr j "received").mapM parseReceived
     let announce ← (← fldArr j "announce").mapM parseSend
     let steps ← (← fldArr j "steps").mapM parseStep
-    return Json.mkObj [("ok", Json.bool (runOKB n startup received announce steps)),
-      ("why", jopt Json.str (diagnose n startup received announce steps))]
+    let unreachable ← optNats j "unreachable"
+    let reach : Nat → Bool := fun a => !unreachable.contains a
+    return Json.mkObj [("ok", Json.bool (runOKB n startup reach received announce steps)),
+      ("why", jopt Json.str (diagnose n startup reach received announce steps))]
   | "server_rounds" =>
     let rounds ← (← fldArr j "rounds").mapM (fun r => do (← arr r).mapM parseAttempt)
     let states := runRounds generatedServerTables tables (← fldCps j "id") (← fldCps j "version")
